@@ -35,12 +35,22 @@ def r_div(chk, units):
     for u in units:
         # pattern parameter types, by pattern location
         pat_params = {}
+        pat_depth = {}
         pat_fields = {}
         pat_rtype = {}
         for d in u.decls.values():
             if d["k"] == "fn" and d.get("dependent") and C.in_lib(d.get("pfile", "")):
-                pat_params[(d["pfile"], d["pline"])] = [p["type"] for p in d["params"]]
-                pat_rtype[(d["pfile"], d["pline"])] = d.get("rtype", "")
+                # several dependent declarations share a pattern location (the primary template and the member templates
+                # of partially instantiated classes, whose parameter depth is renumbered): keep the primary one, i.e. the
+                # one mentioning the deepest template parameter
+                key = (d["pfile"], d["pline"])
+                types = [p["type"] for p in d["params"]]
+                depth = max([int(x) for x in re.findall(r"type-parameter-(\d+)-\d+", " ".join(types + [d.get("rtype", "")]))]
+                            or [-1])
+                if key not in pat_params or depth > pat_depth.get(key, -2):
+                    pat_params[key] = types
+                    pat_rtype[key] = d.get("rtype", "")
+                    pat_depth[key] = depth
             if d["k"] == "rec" and d.get("dependent") and C.in_lib(d.get("file", "")):
                 pat_fields[(d["file"], d["line"])] = {f["name"]: f["type"] for f in d.get("fields", ())}
         for f in u.funcs:
@@ -52,7 +62,18 @@ def r_div(chk, units):
             if pp:
                 # type parameters that are the spline's data type T (element type of arrays / grids / splines)
                 data_params = set()
-                for pt in pp + [pat_rtype.get(f.pkey, "")]:
+                sigs = pp + [pat_rtype.get(f.pkey, "")]
+                # a lambda sees the template parameters of the functions it is written in: their signatures say which
+                # parameter is the data type ([&factor](T &el) { el *= factor; } inside scale(std::array<T, n> &, ..))
+                par, hops = f.decl.get("lambdaparent"), 0
+                while par is not None and hops < 4:
+                    pd = u.decls.get(par)
+                    if pd is None:
+                        break
+                    pk = (pd.get("pfile"), pd.get("pline"))
+                    sigs = sigs + pat_params.get(pk, []) + [pat_rtype.get(pk, "")]
+                    par, hops = pd.get("lambdaparent"), hops + 1
+                for pt in sigs:
                     for m in re.finditer(r"(?:array|Grid|Spline|vector)<(type-parameter-\d+-\d+)", pt):
                         data_params.add(m.group(1))
                 for p, pt in zip(f.decl["params"], pp):
